@@ -24,6 +24,7 @@ import (
 // refuses a line whose fields are stale. Outcome: ok | reject:other | reject:witness w=<writes before the rejection>.
 
 type witness struct {
+	candOwner *common.Address // who registered the candidate key candKey (nil: nobody yet in this case)
 	w     *nworld
 	specs map[string]methodSpec
 	order []string
@@ -41,6 +42,7 @@ func init() {
 }
 
 func (f *witness) Reset(r *hx.Run) {
+	f.candOwner = nil
 	f.w.close()
 	f.w = nil
 }
@@ -236,6 +238,25 @@ func (f *witness) Exec(r *hx.Run, op []string) string {
 	if out.ok && need && !has {
 		r.Viol("C18:no-witness-required:"+id, fmt.Sprintf("%s succeeded for signers [%s] via [%s] although it is reserved to %s %x (which neither signed nor is the calling contract)",
 			c.spec.id, op[5], op[4], c.spec.want, required[:]))
+	}
+	// owner-only operations on an existing record: the witnessed owner must also be the owner stored with the record
+	if out.ok {
+		var stored *common.Address
+		switch c.spec.id {
+		case "side_chain_manager updateSideChain", "side_chain_manager quitSideChain":
+			stored = &ownKey.addr // every side chain of this world was registered by `own`
+		case "node_manager quitNode":
+			stored = &valKeys[3].addr
+		case "node_manager unRegisterCandidate":
+			stored = f.candOwner
+		}
+		if stored != nil && *stored != c.owner {
+			r.Viol("C18:not-stored-owner:"+id, fmt.Sprintf("%s succeeded for owner %x although the record belongs to %x", c.spec.id, c.owner[:], (*stored)[:]))
+		}
+		if c.commit && c.spec.id == "node_manager registerCandidate" && c.variant != 1 {
+			o := c.owner
+			f.candOwner = &o
+		}
 	}
 	if cls == "reject:witness" {
 		if out.writes != 0 {
